@@ -534,3 +534,21 @@ func ReducedEscape(s string) string {
 	}
 	return string(out)
 }
+
+// UpperHex rewrites the two hex digits after every % in upper case: the case
+// of percent-encoding digits is not significant (RFC 3986 section 2.1), so
+// output is normalised with it before being compared with ReducedEscape.
+func UpperHex(s string) string {
+	out := []byte(s)
+	for i := 0; i+2 < len(out); i++ {
+		if out[i] == '%' {
+			for j := i + 1; j <= i+2; j++ {
+				if out[j] >= 'a' && out[j] <= 'f' {
+					out[j] -= 'a' - 'A'
+				}
+			}
+			i += 2
+		}
+	}
+	return string(out)
+}
